@@ -96,7 +96,9 @@ def cbmc_job(job):
         cmd.append(job['solver'])
     if job.get('trace'):
         cmd.append('--trace')
-    rc, out, dt = sh(['timeout', str(job.get('timeout', 1800))] + cmd, cwd=BUILD, timeout=job.get('timeout', 1800) + 30)
+    # per-query memory cap (a query that needs more is undecided, never a pass): keeps 14 parallel queries inside the machine
+    memcap = job.get('memcap_kb', 4500000)
+    rc, out, dt = sh(['sh', '-c', 'ulimit -v %d; exec "$@"' % memcap, 'sh', 'timeout', str(job.get('timeout', 1800))] + cmd, cwd=BUILD, timeout=job.get('timeout', 1800) + 30)
     res = dict(job=job, cmd=' '.join(cmd), wall=dt, rc=rc)
     props = []
     for l in out.split('\n'):
@@ -297,14 +299,14 @@ def run(prop, tier, spec, log, baseline=None, quiet=False):
         for c in caps:
             n, m = (c if isinstance(c, tuple) else (c, 0))
             unwind = spec.get('unwind', lambda n, m: max(3 * n + 8, m + 4, 18))(n, m)
-            base = dict(scen=scen, n=n, m=m, faults=faults, gen=gen, unwind=unwind, order=spec.get('order', False), timeout=spec.get('timeout', {}).get(tier, 600 if tier == 'quick' else 1800))
+            base = dict(scen=scen, n=n, m=m, faults=faults, gen=gen, unwind=unwind, order=spec.get('order', False), memcap_kb=(4500000 if tier == 'quick' else 6000000), timeout=spec.get('timeout', {}).get(tier, 600 if tier == 'quick' else 1800))
             jobs.append(dict(base, witness=False))
             jobs.append(dict(base, witness=True))
     if tier == 'thorough' and spec.get('second_solver', True):
         # second opinion: the small-capacity queries again with z3 as CBMC's back end; verdicts must agree
         jobs += [dict(j, solver='--z3', timeout=1200) for j in list(jobs) if not j['witness'] and j['n'] <= 2 and j['scen'] not in ('ADD_MOD', 'SUB_MOD')]
     log('-- E2/mir2c config=%s: %d functions translated, %d CBMC queries' % (spec.get('tag', 'std'), len(info['functions']), len(jobs)))
-    with concurrent.futures.ThreadPoolExecutor(max_workers=spec.get('workers', 14)) as ex:
+    with concurrent.futures.ThreadPoolExecutor(max_workers=spec.get('workers', 14 if tier == 'quick' else 10)) as ex:
         results = list(ex.map(cbmc_job, jobs))
     wit = {}
     replayed = 0
